@@ -29,6 +29,8 @@ func scenariosFor(prop string, thorough bool) []*scenario {
 		return c05Scenarios(thorough)
 	case "C20":
 		return c20Scenarios(thorough)
+	case "C15":
+		return c15Scenarios(thorough)
 	}
 	return nil
 }
@@ -165,7 +167,12 @@ func (n *fakeNode) CancelBlockRequest(ctx context.Context, hash bitcoin.Hash32) 
 }
 
 // deliver plays the node's handleBlock for a block arriving from the peer.
-func (n *fakeNode) deliver(b *testBlock, announced int) {
+func (n *fakeNode) deliver(b *testBlock, announced int) { n.deliverStall(b, announced, false) }
+
+// deliverStall with dropWhileBusy: after the first transaction the peer drops (the node's "on
+// stop" function runs) while the handler is still busy with the stream, which only ends 7 virtual
+// seconds later (a slow consumer): the download is still running during that time.
+func (n *fakeNode) deliverStall(b *testBlock, announced int, dropWhileBusy bool) {
 	n.mu.Lock()
 	handler := n.handler
 	if !n.requested || handler == nil {
@@ -200,6 +207,11 @@ func (n *fakeNode) deliver(b *testBlock, announced int) {
 			break // the stream ends promptly after a cancel
 		}
 		vsched.Send(txChannel, tx)
+		if dropWhileBusy {
+			n.stop()
+			vsched.Sleep(7 * time.Second)
+			break
+		}
 	}
 	vsched.Close(txChannel)
 	wait.Wait()
